@@ -96,6 +96,10 @@ type bucketInterp struct {
 	classT  int // leading-bit position of the class under interpretation (-1: n == 0)
 	budget  int
 	bitFunc func(*ssa.Function) bool
+	// inputField: when set, the abstract input n is not the function's integer parameter but the load of this field of
+	// its (pointer) parameter; non-integer values are ignored and a non-integer result is recorded as 1 (not the nil
+	// constant) or 0 (the nil constant)
+	inputField string
 }
 
 type bucketState struct {
@@ -332,6 +336,17 @@ func (bi *bucketInterp) step(ins ssa.Instruction, st *bucketState) bool {
 		return true // resolved at the load
 	case *ssa.UnOp:
 		if x.Op == token.MUL {
+			if fa, isFA := x.X.(*ssa.FieldAddr); isFA && bi.inputField != "" {
+				if f, _ := ssax.FieldName(fa); f == bi.inputField {
+					if _, isParam := fa.X.(*ssa.Parameter); isParam {
+						st.env[x] = absVal{a: big.NewInt(1), b: big.NewInt(0), c: big.NewInt(1)}
+						return true
+					}
+				}
+			}
+			if _, _, isInt := bi.typeBits(x.Type()); !isInt && bi.inputField != "" {
+				return true
+			}
 			ia, ok := x.X.(*ssa.IndexAddr)
 			if !ok {
 				bi.fail("load at %s is outside the closed form", pos())
@@ -365,6 +380,13 @@ func (bi *bucketInterp) step(ins ssa.Instruction, st *bucketState) bool {
 		}
 		bi.fail("operator %s at %s is outside the closed form", x.Op, pos())
 		return false
+	}
+	if bi.inputField != "" {
+		if v, isVal := ins.(ssa.Value); !isVal {
+			return true
+		} else if _, _, isInt := bi.typeBits(v.Type()); !isInt {
+			return true // not part of the integer computation
+		}
 	}
 	bi.fail("instruction %T at %s is outside the closed form", ins, pos())
 	return false
@@ -493,7 +515,10 @@ func (bi *bucketInterp) run(lo, hi *big.Int) {
 		return
 	}
 	n := bi.fn.Params[0]
-	init := &bucketState{b: bi.fn.Blocks[0], lo: lo, hi: hi, env: map[ssa.Value]absVal{n: {a: big.NewInt(1), b: big.NewInt(0), c: big.NewInt(1)}}}
+	init := &bucketState{b: bi.fn.Blocks[0], lo: lo, hi: hi, env: map[ssa.Value]absVal{}}
+	if bi.inputField == "" {
+		init.env[n] = absVal{a: big.NewInt(1), b: big.NewInt(0), c: big.NewInt(1)}
+	}
 	work := []*bucketState{init}
 	for len(work) > 0 {
 		st := work[len(work)-1]
@@ -548,6 +573,12 @@ func (bi *bucketInterp) run(lo, hi *big.Int) {
 			case *ssa.Return:
 				if len(x.Results) != 1 {
 					bi.fail("the bucket function does not return exactly one value")
+				} else if _, _, isInt := bi.typeBits(x.Results[0].Type()); !isInt && bi.inputField != "" {
+					res := constInt(1)
+					if ssax.IsNilConst(x.Results[0]) {
+						res = constInt(0)
+					}
+					bi.pieces = append(bi.pieces, bucketPiece{lo: st.lo, hi: st.hi, res: res, pos: x.Pos()})
 				} else if v, ok := bi.eval(x.Results[0], st); ok {
 					bi.pieces = append(bi.pieces, bucketPiece{lo: st.lo, hi: st.hi, res: v, pos: x.Pos()})
 				} else {
